@@ -22,7 +22,9 @@ RULE = ("one virtual process (child / non-child / gone-before-the-call) or 1-6 o
         "and on / around the deadline, or never; timeouts None, 0, negative, on/around polling instants, 5 ms - 2 s; exit codes "
         "{0,1,2,127,255}, signals {1,6+core,9,15,34,64}; EINTR at waitpid calls {0}, {1}, {0,1}, {k}, {2,3}, 3 random calls, a blocking "
         "call being interrupted 0 / 10 us / 1 ms / 0.1 s / 3 s after it was entered or on / 10 us around the exit instant; sequences of "
-        "wait() calls on one object (cache), direct wait_pid() calls; wait_procs over 1-6 processes with a chosen set-iteration "
+        "wait() calls on one object (cache) with other public calls (is_running, kill, terminate, send_signal, suspend, resume, children, name, "
+        "status, ppid, parent, cpu_times, as_dict) interposed, direct wait_pid() calls; wait_procs over 1-6 processes, some already waited for "
+        "and touched through those calls, with a chosen set-iteration "
         "priority (all permutations for <=3 in quick, <=4 in thorough), callback none/callable/not callable. Non-trivial = at "
         "least one poll or a returned status; distinct = distinct canonical case hash.")
 TRUSTED = ["correspondence harness props/C15.py + props/_c15_vk.py (virtual kernel, virtual clock, fake /proc, set-order control by PID choice)",
@@ -154,6 +156,14 @@ def gen_cases(rng, tier):
                              "eintr": [[i, q(dly)] for i in idxs]}
                         cases.append({"kind": "wait", "cls": "block-eintr-" + kind, "proc": p, "start": q(0),
                                       "ops": [["wait", None], ["wait", q(0)]]})
+    # the cache across other public calls: wait -> value, <call>, wait again (same value, no kernel call)
+    if tier != "search":
+        for kind, st in (("child", ["code", 7]), ("child", ["sig", 9, False]), ("nonchild", ["code", 0]), ("never", ["code", 0])):
+            for nm in VK.OTHER_CALLS:
+                p = {"pid": 4242, "kind": kind, "exit": None if kind == "never" else q(F(3, 1000)), "status": st, "eintr": []}
+                cases.append({"kind": "wait", "cls": "cache-call-" + kind, "proc": p, "start": q(0),
+                              "ops": [["call", nm], ["wait", None], ["call", nm], ["wait", None], ["call", "is_running"],
+                                      ["wait", q(0)], ["advance", q(F(1, 10))], ["call", nm], ["wait", q(F(1, 100))]]})
     for _ in range(n_wait):
         shape = rng.random()
         start = rng.choice([F(0)] * 3 + [F(5, 7), F(10001, 10), F(123456789, 1000)])
@@ -174,6 +184,9 @@ def gen_cases(rng, tier):
                 ops.append(["wait", None if tm is None else q(tm)])
                 if rng.random() < 0.3:
                     ops.append(["advance", q(rng.choice([EPS, F(1, 1000), F(1, 10), F(1)]))])
+                # other public calls on the same object between two waits (they must leave the cache alone)
+                for _ in range(rng.choice([0, 0, 1, 1, 2])):
+                    ops.append(["call", rng.choice(VK.OTHER_CALLS)])
             p = _proc(rng, tm if tm is not None else F(1, 10), need_end=True)
             if p["kind"] == "never":
                 p["exit"] = None
@@ -219,9 +232,29 @@ def gen_cases(rng, tier):
             pr = list(range(n))
             rng.shuffle(pr)
             prios = [pr]
+        # already-waited objects: processes that ended before the call (no EINTR), waited for, then used through
+        # other public calls; wait_procs must report them gone with the very status wait() returned
+        pre, inter = [], []
+        if rng.random() < 0.35:
+            pre = [i for i, p in enumerate(ps) if not p["eintr"] and (p["kind"] == "never" or (p["exit"] is not None and unq(p["exit"]) <= start))]
+            inter = [rng.choice(VK.OTHER_CALLS) for _ in range(rng.choice([0, 1, 2]))]
         for pr in prios:
-            cases.append({"kind": "procs", "cls": "procs-%d%s%s" % (n, "-notimeout" if tm is None else "", "-cb" if cb == "ok" else ""),
-                          "procs": ps, "prio": pr, "timeout": None if tm is None else q(tm), "cb": cb, "start": q(start)})
+            c = {"kind": "procs", "cls": "procs-%d%s%s%s" % (n, "-notimeout" if tm is None else "", "-cb" if cb == "ok" else "",
+                                                              "-prewaited" if pre else ""),
+                 "procs": ps, "prio": pr, "timeout": None if tm is None else q(tm), "cb": cb, "start": q(start)}
+            if pre:
+                c["prewait"], c["inter"] = pre, inter
+            cases.append(c)
+    # systematic: one ended child + one running child, the ended one waited for and touched before wait_procs
+    if tier != "search":
+        for nm in VK.OTHER_CALLS:
+            for tm in (None, F(0), F(1, 20)):
+                ps = [{"pid": 1, "kind": "child", "exit": q(F(-1)), "status": ["code", 5], "eintr": []},
+                      {"pid": 2, "kind": "child", "exit": q(F(1, 100)) if tm is None else None, "status": ["sig", 15, False], "eintr": []},
+                      {"pid": 3, "kind": "nonchild", "exit": q(F(-1, 2)), "status": ["code", 0], "eintr": []}]
+                cases.append({"kind": "procs", "cls": "procs-3-prewaited-cb", "procs": ps, "prio": [0, 1, 2],
+                              "timeout": None if tm is None else q(tm), "cb": "ok", "start": q(0),
+                              "prewait": [0, 2], "inter": [nm]})
     return cases
 
 
@@ -261,6 +294,8 @@ def coq_term(case):
                 ops.append("OpWait %s" % gopt(o[1]))
             elif o[0] == "raw":
                 ops.append("OpRaw %s" % gopt(o[1]))
+            elif o[0] == "call":
+                ops.append("OpOther")
             else:
                 ops.append("OpAdvance %s" % gq(o[1]))
         return "run_wait %s %s %s %d%%nat" % (gproc(case["proc"]), gq(case["start"]), G.lst(ops), FUEL)
